@@ -154,17 +154,61 @@ def temp_perm_ownership(chk):
     chk.floor_count("C13.R3:temp/perm writers", n, 2)
 
 
+def _mode_flag(chk):
+    """the field in which the stack's constructor records whether any algo carries the run_always marker (its name is not part of the property)"""
+    fi = chk.prog.func(CORE, "AlgoStack", "__init__")
+    names = set()
+    for node in ast.walk(fi.node):
+        if isinstance(node, ast.Assign) and len(node.targets) == 1:
+            t = node.targets[0]
+            if (isinstance(t, ast.Attribute) and isinstance(t.value, ast.Name) and t.value.id == "self"
+                    and any(isinstance(c, ast.Constant) and c.value == "run_always" for c in ast.walk(node.value))):
+                names.add(t.attr)
+    return names.pop() if len(names) == 1 else "check_run_always"
+
+
+def stack_is_not_marked(chk):
+    """the marker attribute belongs to the algos a user decorates: a stack that stores anything under that name is itself taken for a marked algo when it
+    is nested in another stack (hasattr(...) selects the run_always mode, a truthy value re-runs the whole inner stack after a failure)"""
+    n = 0
+    for f in chk.prog.all_functions(modules=(CORE,)):
+        if f.cls != "AlgoStack":
+            continue
+        n += 1
+        for node in ast.walk(f.node):
+            ts = node.targets if isinstance(node, ast.Assign) else [node.target] if isinstance(node, (ast.AugAssign, ast.AnnAssign)) else []
+            for t in ts:
+                if isinstance(t, ast.Attribute) and t.attr == "run_always":
+                    chk.ob("C13.R2", False, CORE, f.qual, "stack-carries-marker", "a stack does not carry the run_always marker itself (nested in another stack it would count as a marked algo)",
+                           where="%s:%d" % (f.module, node.lineno), expected="the mode flag under a name of its own", found="%s.run_always assigned" % ast.unparse(t.value))
+    cls = chk.prog.classes.get("AlgoStack")
+    if cls is not None:
+        for st in cls.node.body:
+            ts = st.targets if isinstance(st, ast.Assign) else [st.target] if isinstance(st, ast.AnnAssign) else []
+            for t in ts:
+                if isinstance(t, ast.Name) and t.id == "run_always":
+                    chk.ob("C13.R2", False, CORE, "AlgoStack", "stack-carries-marker", "a stack does not carry the run_always marker itself", where="%s:%d" % (CORE, st.lineno),
+                           found="class attribute run_always")
+    chk.floor_count("C13.R2:AlgoStack methods", n, 2)
+
+
 def run(chk):
+    flag = _mode_flag(chk)
+    stack_is_not_marked(chk)
+    stack_ref, stack_init_ref = STACK_REF.replace("check_run_always", flag), STACK_INIT_REF.replace("check_run_always", flag)
     chk.explain("C13: AlgoStack.__call__ (both modes), its constructor's mode selection, the run_always decorator, Strategy.run, Or, Not and Require are equivalent (truth table over "
                 "branch atoms, per-iteration effects) to reference models: in order, False at the first failure, each algo called at most once per pass and after a failure only when "
                 "flagged run_always; temp emptied, then the stack, then each child once; perm/temp writers enumerated; Or calls every branch; RunIfOutOfBounds' deviation rule.")
-    check_equiv(chk, "C13.R1", CORE, "AlgoStack", "__call__", STACK_REF, "stack-execution",
+    check_equiv(chk, "C13.R1", CORE, "AlgoStack", "__call__", stack_ref, "stack-execution",
                 "a stack runs its algos in order and reports False at the first failure; algos marked run_always still run after a failure, each algo at most once per pass")
-    check_equiv(chk, "C13.R2", CORE, "AlgoStack", "__init__", STACK_INIT_REF, "stack-mode-selection", "the run_always mode is selected when any algo carries the run_always attribute", depth=3)
+    check_equiv(chk, "C13.R2", CORE, "AlgoStack", "__init__", stack_init_ref, "stack-mode-selection", "the run_always mode is selected when any algo carries the run_always attribute", depth=3)
     S = chk.ref(RUN_ALWAYS_REF, None, module=ALGOS)
     check_equiv(chk, "C13.R2", ALGOS, None, "run_always", RUN_ALWAYS_REF, "run-always-decorator", "the decorator marks the algo and returns it")
     check_equiv(chk, "C13.R3", CORE, "Strategy", "run", RUN_REF, "strategy-run", "a strategy starts each run with empty temp, runs its own stack, then runs each child exactly once")
     temp_perm_ownership(chk)
+    from .c19 import STRATEGY_INIT_REF
+    check_equiv(chk, "C13.R3", CORE, "Strategy", "__init__", STRATEGY_INIT_REF, "strategy-construction",
+                "a strategy's stack holds exactly the algos it was given, in order (the argument is consumed once, by the stack)", no_inline=("__init__",))
     check_equiv(chk, "C13.R4", ALGOS, "Or", "__call__", OR_REF, "or-runs-every-branch", "Or runs every branch (no short-circuit) and reports whether any succeeded")
     check_equiv(chk, "C13.R4", ALGOS, "Not", "__call__", NOT_REF, "not-inverts", "Not inverts its algo's result")
     check_equiv(chk, "C13.R4", ALGOS, "Require", "__call__", REQUIRE_REF, "require", "Require applies its predicate to the temp entry, with its default when the entry is absent or None")
